@@ -1087,7 +1087,8 @@ func (f *c17Field) tagKey() string {
 
 var c17IntPool = []string{"0", "1", "-1", "7", "42", "127", "128", "-128", "-129", "255", "256", "32767", "32768",
 	"-32768", "65535", "65536", "2147483647", "2147483648", "-2147483648", "4294967295", "4294967296",
-	"9223372036854775807", "-9223372036854775808", "16777217", "100", "300", "1000000"}
+	"9223372036854775807", "-9223372036854775808", "16777217", "100", "300", "1000000", "18446744073709551615",
+	"9223372036854775808"}
 
 var c17FloatPool = []string{"0.5", "1.5", "-2.25", "3.125", "0.1", "2.75", "100.5", "-0.75", "1234.5678", "0.001",
 	"3.4028235", "16777217.5", "0.3", "99.99"}
